@@ -1,13 +1,54 @@
 /-
   C06 — TPTP rendering of a formula preserves its meaning.
-  Status (partial): theorems about the text printer's grouping (after the `fix:` that
-  parenthesises chained comparisons): a chain is never printed bare under a connective or a
-  negation, negative numerals go through `$uminus`, the relation symbol is chosen by the operand
-  sorts. The structural translation + its semantics (`tr_sem`) are in Proofs/TptpSem when present.
-  Every emitted problem text is additionally parsed by tptp4X in the check (syntax oracle).
+  Proved: the text the printer emits is the rendering of a TFF syntax tree `tr F` (`rendering_is_a_tree`),
+  that tree has, in the standard structure induced by an interpretation, exactly the classical
+  meaning of `F` under every assignment (`rendering_preserves_meaning`), and consequently an
+  entailment between renderings that holds in *all* TFF structures (what a prover establishes)
+  holds between the source formulas in all standard interpretations (`entailment_transfers`).
+  Plus the grouping facts about the text printer (after the `fix:` that parenthesises chained
+  comparisons). What is not proved: that a TPTP reader reads the text `TForm.print t` back as `t`
+  (TPTP's grammar is not formalised); this is checked on every run by reading every rendered text
+  back with the reader of Model/TffParse.lean (TPTP precedence rules) and comparing with `tr F`,
+  and by tptp4X on every emitted problem.
 -/
-import AnthemModel.Model.TptpFmt
+import AnthemModel.Proofs.TffSem
+import AnthemModel.Props.C12
 namespace Anthem.C06
+
+/-- The text model of the Rust printer is the rendering of the TFF tree `tr F`. -/
+theorem rendering_is_a_tree (F : Formula) : tptpFormula F = (tr F).print := (print_tr F).symm
+
+/-- **C06**: in the standard structure of an interpretation `I`, the TFF tree of `F` holds under
+    the typed reading of an assignment iff `F` holds classically in `I` under that assignment —
+    for every formula (chains of any length, mixed-sort comparisons, negative numerals,
+    placeholders of each sort, every connective and binder list). -/
+theorem rendering_preserves_meaning (I : Interp) (F : Formula) (ρ : Asg) :
+    (tr F).sat (stdStruct I) (stdAsg I ρ) ↔ sat I F ρ := tr_sem I F ρ
+
+/-- What a prover establishes transfers: if in every TFF structure and assignment the renderings of
+    the axioms entail the rendering of the conjecture, then in every standard interpretation the
+    axioms entail the conjecture. -/
+theorem entailment_transfers (axioms : List Formula) (conjecture : Formula)
+    (h : ∀ (M : TStruct) (θ : TAsg M), (∀ a ∈ axioms, (tr a).sat M θ) → (tr conjecture).sat M θ)
+    (I : Interp) (ρ : Asg) (hax : ∀ a ∈ axioms, sat I a ρ) : sat I conjecture ρ :=
+  (tr_sem I conjecture ρ).mp
+    (h (stdStruct I) (stdAsg I ρ) fun a ha => (tr_sem I a ρ).mpr (hax a ha))
+
+/-- The same with the axioms anthem adds on its own: a prover may use the preamble and the
+    `symbol_order` axioms, because every standard structure satisfies them (C12). -/
+theorem entailment_transfers_with_preamble (syms : List String) (hnd : syms.Nodup)
+    (axioms : List Formula) (conjecture : Formula)
+    (h : ∀ (M : TStruct) (θ : TAsg M), Preamble M → SymbolOrder M syms →
+      (∀ a ∈ axioms, (tr a).sat M θ) → (tr conjecture).sat M θ)
+    (I : Interp) (ρ : Asg) (hax : ∀ a ∈ axioms, sat I a ρ) : sat I conjecture ρ :=
+  (tr_sem I conjecture ρ).mp
+    (h (stdStruct I) (stdAsg I ρ) (C12.std_satisfies_preamble I)
+      (C12.std_satisfies_symbol_order I syms hnd) fun a ha => (tr_sem I a ρ).mpr (hax a ha))
+
+/-- Non-vacuity: a chained, mixed-sort comparison with a negative numeral under a quantifier. -/
+example : tptpFormula (.quant .ex [⟨"N", .integer⟩]
+    (.atomic (.cmp (.int (.num (-1))) [⟨.le, .int (.var "N")⟩, ⟨.lt, .var "X"⟩]))) =
+    "?[N_i: $int]: ($lesseq($uminus(1), N_i) & p__less__(f__integer__(N_i), X_g))" := by decide
 
 /-- A chained comparison under a negation is parenthesised (`~(a & b)`, not `~a & b`). -/
 theorem chain_under_not (t : GTerm) (g₁ g₂ : Guard) (gs : List Guard) :
